@@ -121,6 +121,22 @@ def contract_unit(spec):
             if confirmed is not None:
                 e['witness'] = {'inputs': confirmed.get('inputs'), 'detail': confirmed.get('detail')}
         out['obligations'].append(e)
+    unknown_posts = [e for e in out['obligations'] if e['status'] == 'unknown' and e.get('expect') == 'valid']
+    if unknown_posts and c.ghost.get('k3') and not c.ghost.get('k3_static_only') and not vc.exclusions:
+        # the solvers gave up on an obligation (typically a satisfiable one on a changed tree: no
+        # model found within the budget).  The schema contract is then evaluated on the real pipeline
+        # over its catalogue; a violated clause is a confirmed violation, otherwise the obligation
+        # stays undecided.
+        if searched is None:
+            searched = rp.search(c)
+        if searched.get('verdict') == 'violates':
+            out['obligations'].append({
+                'name': '%s.concrete' % c.qual, 'expect': 'valid', 'status': 'failed', 'backend': 'replay',
+                'time': 0.0, 'okind': 'post', 'confirmed': True,
+                'tried': 'catalogue search (solvers undecided on %s)' % ', '.join(
+                    sorted({e['name'] for e in unknown_posts})[:3]),
+                'text': 'the schema contract holds on the real pipeline for every catalogue instance',
+                'witness': {'inputs': searched.get('inputs'), 'detail': searched.get('detail')}})
     if res.undecided and (c.ghost.get('harness') or c.ghost.get('search')) and not c.ghost.get('k3'):
         # the generator could not handle the function as it stands (on a changed tree: a construct
         # outside the subset, a loop without a specification).  No obligation can be discharged, the
